@@ -238,6 +238,9 @@ def run(repo: Repo, rep: Report, tier: str) -> None:
     # ---- absent is None, not falsy ---------------------------------------------------------
     from ..lints import zero_legal_truthiness
     rep.rule("none-not-falsy", "PDU / primitive parameters whose falsy value is legal (b'' response, 0 codes, 0 = unlimited, False role) are tested with `is None`")
+    # in the primitives (where 'absent' decides which item is built): an empty application-information field is a
+    # legal value, as are the zero window sizes of asynchronous operations
+    zero_legal_truthiness(repo, rep, "none-not-falsy", {"service_class_application_information", "maximum_number_operations_invoked", "maximum_number_operations_performed"}, modules=("pdu_primitives",))
     n_t = zero_legal_truthiness(repo, rep, "none-not-falsy", {"server_response", "primary_field", "secondary_field", "maximum_length", "maximum_length_received", "result", "source", "reason", "diagnostic", "result_source", "abort_source", "provider_reason", "scu_role", "scp_role"}, modules=("pdu", "pdu_items", "pdu_primitives"))
     rep.floor("truthiness tests on zero-legal PDU fields (all allow-listed)", n_t, 5)
 
